@@ -98,9 +98,21 @@ class Inliner:
         node = copy.deepcopy(unit.node)
         changed = [False]
         node.body = self._block(node.body, unit, (unit.fq,), 0, changed)
-        if _unalias_fields(node, unit):
-            changed[0] = True
-        if _inline_properties(node, self.pkg):
+        for _round in range(3):
+            again = False
+            if _unalias_fields(node, unit):
+                changed[0] = again = True
+            if _inline_properties(node, self.pkg):
+                changed[0] = again = True
+            if not again:
+                break
+            # a receiver that was a renamed local (``state__i1.helper()``) reads as the field it stands for now: the calls
+            # the first pass could not resolve may be resolvable
+            more = [False]
+            node = copy.deepcopy(node)  # (fresh nodes: the origin analysis remembers what it said about a node object)
+            node.body = self._block(node.body, unit, (unit.fq,), 0, more)
+            if not more[0]:
+                break
             changed[0] = True
         if not changed[0]:
             return unit
